@@ -230,8 +230,14 @@ def vi_oracle(case):
     if k == "push":
         w, v = op[1], op[2]
         b = Buffer(capacity=16)
-        getattr(b, "push_uint%d" % (8 * w))(v)          # never raises for ints (observed; F12)
-        if 0 <= v < 1 << (8 * w):
+        in_range = 0 <= v < 1 << (8 * w)
+        try:
+            getattr(b, "push_uint%d" % (8 * w))(v)      # unchanged tree: never raises for ints (F12)
+        except (ValueError, OverflowError):
+            if in_range:
+                return ("push_uint%d(%d) raised on an in-range value" % (8 * w, v), {"codec": "fixed", "rule": "spurious_error"})
+            return None                                  # a range check (docs/C17-fix-1.patch) is the desired behaviour
+        if in_range:
             if b.data != v.to_bytes(w, "big"):
                 return ("push_uint%d(%d) wrote %s" % (8 * w, v, H(b.data)), {"codec": "fixed", "rule": "bytes"})
             r = Buffer(data=b.data + b"\xaa")
